@@ -1,7 +1,6 @@
 package rules
 
 import (
-
 	"golang.org/x/tools/go/ssa"
 
 	"verif/checker/ir"
